@@ -87,7 +87,7 @@ def o_gauss(a):
     return ok, dict(cov_err=e, sx_over_sigma=sx, sy_over_sigma=sy, corr=rho)
 
 
-def make_image(path, data, ra0, dec0, pix_arcsec=6., dtype=float, pix_y_arcsec=None):
+def make_image(path, data, ra0, dec0, pix_arcsec=6., dtype=float, pix_y_arcsec=None, store=None):
     from astropy.io import fits
     ny, nx = data.shape
     h = fits.Header()
@@ -95,7 +95,10 @@ def make_image(path, data, ra0, dec0, pix_arcsec=6., dtype=float, pix_y_arcsec=N
     h['CRPIX1'], h['CRPIX2'] = 0.5 * (nx + 1), 0.5 * (ny + 1)
     h['CRVAL1'], h['CRVAL2'] = ra0, dec0
     h['CDELT1'], h['CDELT2'] = -pix_arcsec / 3600., (pix_arcsec if pix_y_arcsec is None else pix_y_arcsec) / 3600.
-    fits.PrimaryHDU(data=data.astype(dtype), header=h).writeto(path, overwrite=True)
+    hdu = fits.PrimaryHDU(data=data.astype(dtype), header=h)
+    if store == 'scaled':           # integers on disk with BSCALE / BZERO: the physical values are what a reader must see
+        hdu.scale('int16', bscale=0.5, bzero=100.)
+    hdu.writeto(path, overwrite=True)
 
 
 def o_image(a):
@@ -116,10 +119,15 @@ def o_image(a):
         data[ny // 3, nx // 2] = 1.
         data = data.astype(numpy.float32).astype(float)
     data[0, nx - 1] = 0.       # a pixel that must stay empty
+    store = a.get('store')
+    if store:
+        # templates stored as integers: unsigned 16-bit (the FITS convention BZERO = 32768) or scaled 16-bit (BSCALE, BZERO)
+        data = numpy.rint(data * 400.) * (1. if store == 'uint16' else 0.5)
+        dtype = numpy.uint16 if store == 'uint16' else float
     with scratch() as d:
         path = os.path.join(d, 'img.fits')
         px_as, py_as = a.get('pix', (6., 6.))         # templates need not have square pixels
-        make_image(path, data, a['ra'], a['dec'], dtype=dtype, pix_arcsec=px_as, pix_y_arcsec=py_as)
+        make_image(path, data, a['ra'], a['dec'], dtype=dtype, pix_arcsec=px_as, pix_y_arcsec=py_as, store=store if store == 'scaled' else None)
         src = xExtendedSource('e', path, *spec())
         n = 400000
         u = strat(n, g)
@@ -289,23 +297,32 @@ def o_mctruth(a):
     from ixpeobssim.irf import load_irf_set, DEFAULT_IRF_NAME
     R = 30. / 3600.
     roi = xROIModel(a['ra'], a['dec'])
-    roi.add_sources(xPointSource('p', a['ra'], a['dec'], *spec()), xUniformDisk('d', a['ra'] + 0.05 / numpy.cos(numpy.radians(a['dec'])), a['dec'] - 0.03, R, *spec()))
-    irf_set = load_irf_set(DEFAULT_IRF_NAME, a['du'])
-    kwargs = simdrive.sim_kwargs(simdrive.config_path('toy_point_source.py'), 'unused.fits', start_met=0., duration=200.)
-    numpy.random.seed(a['seed'])
-    el = roi.rvs_event_list(irf_set, **kwargs)
-    src = numpy.array(el['SRC_ID']).astype(int)
-    mra, mdec = numpy.array(el['MC_RA'], dtype=float), numpy.array(el['MC_DEC'], dtype=float)
+    dra = a.get('disk_dra', 0.05)        # offset of the disk from the field centre in the tangent plane (degrees); with a field at RA ≈ 0 the disk straddles RA = 0 / 360
+    roi.add_sources(xPointSource('p', a['ra'], a['dec'], *spec()), xUniformDisk('d', a['ra'] + dra / numpy.cos(numpy.radians(a['dec'])), a['dec'] - 0.03, R, *spec()))
+    # through the written file: the events that reach it have passed the detector projection and the fiducial cut
+    from astropy.io import fits
+    with scratch() as d:
+        path = os.path.join(d, 'mc.fits')
+        simdrive.simulate(simdrive.config_path('toy_point_source.py'), path, du_id=a['du'], seed=a['seed'], roi_model=roi, duration=200., vignetting=False, dithering=False, deadtime=0.)
+        with fits.open(path) as h:
+            src = numpy.array(h['MONTE_CARLO'].data['SRC_ID']).astype(int)
+            mra, mdec = numpy.array(h['MONTE_CARLO'].data['MC_RA'], dtype=float), numpy.array(h['MONTE_CARLO'].data['MC_DEC'], dtype=float)
     bad = []
     p = src == 0
     off = numpy.hypot((mra[p] - a['ra']) * numpy.cos(numpy.radians(a['dec'])), mdec[p] - a['dec']) * 3600.
-    if p.sum() and off.max() > 1e-6:
-        bad.append('%d of %d point-source events have a Monte Carlo position off the source position (up to %.1f arcsec)' % (int((off > 1e-6).sum()), int(p.sum()), off.max()))
+    if p.sum() and off.max() > 0.05:          # MC_RA, MC_DEC are single-precision columns
+        bad.append('%d of %d point-source events have a Monte Carlo position off the source position (up to %.1f arcsec)' % (int((off > 0.05).sum()), int(p.sum()), off.max()))
     dmask = src == 1
-    x, y = tangent(mra[dmask], mdec[dmask], a['ra'] + 0.05 / numpy.cos(numpy.radians(a['dec'])), a['dec'] - 0.03)
+    x, y = tangent(mra[dmask], mdec[dmask], a['ra'] + dra / numpy.cos(numpy.radians(a['dec'])), a['dec'] - 0.03)
     r = numpy.hypot(x, y)
-    if dmask.sum() and (r > R * (1 + 1e-6)).any():
+    if dmask.sum() and (r > R + 0.05 / 3600.).any():
         bad.append('%d of %d disk events have a Monte Carlo position outside the %.0f arcsec disk (up to %.1f arcsec)' % (int((r > R * (1 + 1e-6)).sum()), int(dmask.sum()), R * 3600., r.max() * 3600.))
+    # the disk is sampled whole: as many events east as west of its centre, and (same spectrum, both inside the field of view) about as many as the point source
+    nd, east = int(dmask.sum()), int((x > 0).sum())
+    if nd and abs(east - 0.5 * nd) > 5. * math.sqrt(0.25 * nd) + 2:
+        bad.append('%d of %d disk events lie east of the disk centre' % (east, nd))
+    if p.sum() and abs(nd - p.sum()) > 6. * math.sqrt(nd + p.sum()) + 0.1 * p.sum():
+        bad.append('%d disk events for %d events of a point source with the same spectrum' % (nd, int(p.sum())))
     return not bad and p.sum() > 100 and dmask.sum() > 100, dict(violated=bad, point_events=int(p.sum()), disk_events=int(dmask.sum()))
 
 
@@ -349,9 +366,13 @@ def explore(chk, budget=1):
     run_oracle(chk, 'imgmap', dict(shape=(8, 8), template_pix=16., nside=int(g.choice([24, 28])), pix=float(g.choice([3.7, 4.1])), ra=float(g.uniform(5, 355)),
                                    dec=float(g.uniform(-15, 15)), seed=int(g.integers(1, 10 ** 6))))       # low declination: the in-pixel randomisation of xFITSImage is done in RA, DEC (recorded observation)
     run_oracle(chk, 'mctruth', dict(ra=float(g.uniform(5, 355)), dec=float(g.uniform(-60, 60)), du=int(g.integers(1, 4)), seed=int(g.integers(1, 10 ** 6))))
+    run_oracle(chk, 'mctruth', dict(ra=float(g.choice([0.004, 359.997])), dec=float(g.uniform(-40, 40)), disk_dra=float(g.choice([0., 0.002, -0.003])), du=int(g.integers(1, 4)),
+                                    seed=int(g.integers(1, 10 ** 6))))
     run_oracle(chk, 'image', dict(shape=(128, 160) if quick else (256, 256), profile='core', ra=float(g.uniform(5, 355)), dec=float(g.uniform(-60, 60)), seed=int(g.integers(1, 10 ** 6))))
     for shape, pix in ([((6, 8), (2., 8.)), ((8, 6), (9., 3.))] if quick else [((6, 8), (2., 8.)), ((8, 6), (9., 3.)), ((7, 7), (4., 5.)), ((5, 9), (12., 2.))]):
         run_oracle(chk, 'image', dict(shape=shape, pix=pix, randomize=True, ra=float(g.uniform(5, 355)), dec=float(g.uniform(-60, 60)), seed=int(g.integers(1, 10 ** 6))))
+    for store in ('uint16', 'scaled'):
+        run_oracle(chk, 'image', dict(shape=(6, 7), store=store, ra=float(g.uniform(5, 355)), dec=float(g.uniform(-60, 60)), seed=int(g.integers(1, 10 ** 6))))
     for shape in ([(7, 7), (5, 9), (9, 5)] if quick else [(7, 7), (5, 9), (9, 5), (12, 4), (3, 11), (16, 16)]):
         run_oracle(chk, 'image', dict(shape=shape, ra=float(g.uniform(5, 355)), dec=float(g.uniform(-60, 60)), seed=int(g.integers(1, 10 ** 6))), nontrivial=shape[0] != shape[1])
 
